@@ -3,6 +3,7 @@ package main
 import (
 	"fmt"
 	"math"
+	"strings"
 
 	"github.com/tidwall/geojson"
 	"github.com/tidwall/geojson/geometry"
@@ -346,6 +347,27 @@ func c10Check(coll geojson.Object, expectChildren []string, probes []geojson.Obj
 			if bg := baseGeometry(x); bg != nil {
 				sw, si, ok := spatialAnswers(coll, bg)
 				w.Evals += 2
+				// where an extent is wider than MaxFloat64 the two entry points of a
+				// leaf (object level, Spatial) disagree among themselves (differences
+				// overflow, the answer depends on operand order): there the model is
+				// composed from the children's own Spatial answers, so that only the
+				// wrapper is judged. Everywhere else the object-level model stands.
+				cw, ci := !empty, false
+				for _, k := range ch {
+					if k.Empty() {
+						cw = false
+						continue
+					}
+					kw, ki, kok := spatialAnswers(k, bg)
+					if !kok {
+						ok = false
+						break
+					}
+					cw, ci = cw && kw, ci || ki
+				}
+				if ok && (cw != mw || ci != mi) && (extentOverflows(coll.Rect()) || extentOverflows(x.Rect())) {
+					mw, mi = cw, ci
+				}
 				if ok && (sw != mw || si != mi) {
 					fails = append(fails, [3]string{fmt.Sprintf("spatial-interface(probe %d)", pi), fmt.Sprintf("within=%v intersects=%v for %s", mw, mi, x.JSON()), fmt.Sprintf("Spatial(): within=%v intersects=%v", sw, si)})
 				}
@@ -452,6 +474,79 @@ func c10Kinds() []c10kind {
 			return geojson.NewMultiPolygon(gs), js, ok
 		}},
 	}
+}
+
+// Collections whose parts are wider (or taller) than MaxFloat64 although every
+// ordinate is finite (Max - Min overflows; Min + Max does not): children and
+// probes with extreme ordinates of opposite sign on one axis.
+func c10WideKinds() []c10kind {
+	sq := func(x0, y0, x1, y1 float64) *geometry.Poly {
+		return geometry.NewPoly([]geometry.Point{gpt(x0, y0), gpt(x1, y0), gpt(x1, y1), gpt(x0, y1), gpt(x0, y0)}, nil, nil)
+	}
+	polys := []*geometry.Poly{sq(-1.2e308, -1, 1.2e308, 1), sq(-1, -1.2e308, 1, 1.2e308), sq(-1, -1, 0, 0)}
+	objs := []func() geojson.Object{
+		func() geojson.Object { return geojson.NewPolygon(polys[0]) },
+		func() geojson.Object { return geojson.NewPolygon(polys[1]) },
+		func() geojson.Object {
+			return geojson.NewRect(geometry.Rect{Min: gpt(-1.2e308, -1), Max: gpt(1.2e308, 1)})
+		},
+		func() geojson.Object {
+			return geojson.NewLineString(geometry.NewLine([]geometry.Point{gpt(-math.MaxFloat64, 0), gpt(1, 0.5)}, nil))
+		},
+		func() geojson.Object { return geojson.NewPoint(gpt(0, 0)) },
+	}
+	names := []string{"Gwide", "Gtall", "Rwide", "Lwide", "P(0,0)"}
+	gen := func(fc bool) func(seq []int) (geojson.Object, []string, bool) {
+		return func(seq []int) (geojson.Object, []string, bool) {
+			var ch []geojson.Object
+			var js []string
+			for _, i := range seq {
+				o := objs[i]()
+				ch = append(ch, o)
+				js = append(js, o.JSON())
+			}
+			if fc {
+				return geojson.NewFeatureCollection(ch), js, true
+			}
+			return geojson.NewGeometryCollection(ch), js, true
+		}
+	}
+	return []c10kind{
+		{"GeometryCollection/wide", names, gen(false)},
+		{"FeatureCollection/wide", names, gen(true)},
+		{"MultiPolygon/wide", []string{"Gwide", "Gtall", "G1"}, func(seq []int) (geojson.Object, []string, bool) {
+			var gs []*geometry.Poly
+			var js []string
+			for _, i := range seq {
+				gs = append(gs, polys[i])
+				js = append(js, geojson.NewPolygon(polys[i]).JSON())
+			}
+			return geojson.NewMultiPolygon(gs), js, true
+		}},
+	}
+}
+
+func c10WideProbes() []geojson.Object {
+	sq := func(x0, y0, x1, y1 float64) *geometry.Poly {
+		return geometry.NewPoly([]geometry.Point{gpt(x0, y0), gpt(x1, y0), gpt(x1, y1), gpt(x0, y1), gpt(x0, y0)}, nil, nil)
+	}
+	wl := geojson.NewLineString(geometry.NewLine([]geometry.Point{gpt(-1e308, 0), gpt(1e308, 0.5)}, nil))
+	wr := geojson.NewRect(geometry.Rect{Min: gpt(-1e308, 0), Max: gpt(1e308, 0.5)})
+	return []geojson.Object{
+		wr, wl, geojson.NewPolygon(sq(-1e308, 0, 1e308, 0.5)), geojson.NewFeature(wl, ""),
+		geojson.NewGeometryCollection([]geojson.Object{geojson.NewPoint(gpt(0, 0)), wr}),
+		geojson.NewRect(geometry.Rect{Min: gpt(0, -1e308), Max: gpt(0.5, 1e308)}),
+		geojson.NewPolygon(sq(-1.2e308, -1, 1.2e308, 1)), geojson.NewPolygon(sq(-1.5e308, -1.5e308, 1.5e308, 1.5e308)),
+		geojson.NewLineString(geometry.NewLine([]geometry.Point{gpt(-math.MaxFloat64, 0), gpt(1, 0.5)}, nil)),
+		geojson.NewMultiPoint([]geometry.Point{gpt(-1e308, 0), gpt(1e308, 0)}),
+		geojson.NewPoint(gpt(0, 0)), geojson.NewPoint(gpt(1.1e308, 0)), geojson.NewPoint(gpt(5, 5)),
+		geojson.NewRect(geometry.Rect{Min: gpt(-0.5, -0.5), Max: gpt(0, 0)}),
+		geojson.NewMultiPolygon([]*geometry.Poly{sq(-1e308, 0, 1e308, 0.5), sq(-1, -1, 0, 0)}),
+	}
+}
+
+func extentOverflows(r geometry.Rect) bool {
+	return math.IsInf(r.Max.X-r.Min.X, 0) || math.IsInf(r.Max.Y-r.Min.Y, 0)
 }
 
 func c10Thresholds(n int) []int {
@@ -567,6 +662,21 @@ func runC10(r *rt.Run) {
 			w.Fail(class, func() (rt.Case, string, string) { return c, exp, got })
 		})
 	})
+	// parts wider than MaxFloat64
+	{
+		wp := c10WideProbes()
+		var wjobs []job
+		for _, k := range c10WideKinds() {
+			forSeqs(len(k.alpha), 1, 3, func(seq []int) { wjobs = append(wjobs, job{k, append([]int(nil), seq...)}) })
+		}
+		r.Bounds["wide_part_sequences"] = len(wjobs)
+		r.ParFor(len(wjobs), func(i int, w *rt.Worker) {
+			w.Nontriv++
+			c10Sequence(wjobs[i].k, wjobs[i].seq, wp, w, func(class string, c rt.Case, exp, got string) {
+				w.Fail(class, func() (rt.Case, string, string) { return c, exp, got })
+			})
+		})
+	}
 	// large families
 	sizes := []int{31, 32, 33, 34, 64, 65, 200}
 	if r.Thorough() {
@@ -720,9 +830,12 @@ func evalC10(c *rt.Case) (bool, string, string, error) {
 		c10Family(c.X["family"], n, kind, probes, w, emit)
 		return fails, e, g, nil
 	}
-	for _, k := range c10Kinds() {
+	for _, k := range append(c10Kinds(), c10WideKinds()...) {
 		if k.name != c.Op {
 			continue
+		}
+		if strings.HasSuffix(k.name, "/wide") {
+			probes = c10WideProbes()
 		}
 		var seq []int
 		for _, o := range c.Ops {
